@@ -15,18 +15,22 @@ META = {
                  'simulated deeper behaviours plus the counterexamples of the historically defective clean-up are '
                  'replayed on the real partition.Subscribe of a one-node server; every recorded step judged by TLC '
                  '(trace validation against the same P_* predicates and the OneActive invariant)',
-    'level_text': 'TLC enumerates every interleaving of group subscribes (3 consumer ids incl. the same id again, '
-                  'epochs 1-3, valid and invalid positions), subscription closes and subscribe-loop exits (a separate '
+    'level_text': 'TLC enumerates every interleaving of subscribe requests (sent to the partition leader or to an in-sync '
+                  'follower, with and without ReadISRReplica, 3 consumer ids incl. the same id again, epochs 1-3, valid '
+                  'and invalid positions, open-ended and bounded), subscription closes and subscribe-loop exits (a separate '
                   'step, arbitrarily late) within the bounds and proves OneActive and the step predicates on the '
                   'specification; the same behaviours are executed on the real code (loop exit made a controlled step '
                   'by cancelling the context and waiting for subscriberCount) and each real state is re-judged by TLC.',
-    'level_note': 'One partition, one or two groups plus plain subscriptions; steps are executed lock-step (Subscribe '
+    'level_note': 'One partition served by its leader and one in-sync follower (real two-server cluster), one or two '
+                  'groups plus plain subscriptions; requests vary in serving node, ReadISRReplica, group, consumer, epoch, '
+                  'valid/invalid positions and open-ended/bounded stop position. Steps are executed lock-step (Subscribe '
                   'is atomic under consumersMu, Close under the subscription mutex, the loop clean-up under '
                   'consumersMu - the interleavings of these critical sections are what is enumerated); real overlap of '
                   'two Subscribe calls is only explored by Burst steps (two goroutines released together, schedule '
-                  'chosen by the Go runtime, quiescent state judged). "Active" = not closed and loop still running. '
-                  'Bounds: quick <= 4 subscriptions / 7 steps exhaustive model, 5 steps replayed transition cover, 12 '
-                  'steps simulated; thorough 2 groups <= 4 / 6, cover 6 steps, 16 steps simulated.',
+                  'chosen by the Go runtime, quiescent state judged). "Active" = not closed and loop still running, '
+                  'counted over both servers. Bounds: quick <= 4 subscriptions / 7 steps exhaustive model, 5 steps '
+                  'replayed transition cover, 12 steps simulated; thorough 2 groups <= 4 / 6, cover 6 steps, 16 steps '
+                  'simulated. No leader change while subscriptions run; no read-only partition.',
     'design_ref': 'DESIGN.md section 6/C13',
 }
 
@@ -38,8 +42,10 @@ def to_stimulus(steps, rng, bid):
     out = {'id': bid, 'cfg': {'groups': GROUPS}, 'steps': []}
     for a in steps:
         a = dict(a)
-        if a['a'] == 'Subscribe' and a.get('bad') and 'badkind' not in a:
+        if a['a'] == 'Subscribe' and a['q'].get('bad') and 'badkind' not in a:
             a['badkind'] = rng.choice(BADKINDS)
+        if a['a'] == 'Subscribe' and a['q'].get('stop') != 'none' and 'stopoff' not in a:
+            a['stopoff'] = rng.choice([3, 1000])
         out['steps'].append(a)
     return out
 
@@ -51,11 +57,16 @@ def features(b):
     for s in b['steps']:
         if s['a'] == 'Burst':
             f.add('concurrent-subscribes')
-        if s['a'] == 'Subscribe' and s['g']:
-            k = (s['g'], s['c'])
+        if s['a'] == 'Subscribe' and s['q']['g']:
+            q = s['q']
+            k = (q['g'], q['c'])
             if k in seen:
                 f.add('same-consumer-resubscribes')
-            seen[k] = s['e']
+            seen[k] = q['e']
+            if q['n'] == 'F':
+                f.add('group-request-to-follower')
+            if q['stop'] != 'none':
+                f.add('bounded-group-subscription')
     return ','.join(sorted(f)) or '-'
 
 
@@ -63,8 +74,8 @@ def nontrivial(b):
     """a take-over attempt (second subscribe of a group) and a loop exit or close"""
     n = {}
     for s in b['steps']:
-        if s['a'] == 'Subscribe' and s['g'] and not s.get('bad'):
-            n[s['g']] = n.get(s['g'], 0) + 1
+        if s['a'] == 'Subscribe' and s['q']['g'] and not s['q'].get('bad'):
+            n[s['q']['g']] = n.get(s['q']['g'], 0) + 1
         if s['a'] == 'Burst':
             n[s['g']] = n.get(s['g'], 0) + len(s['cs'])
     acts = {s['a'] for s in b['steps']}
@@ -194,7 +205,8 @@ def label_step(lab):
         raise core.Inconclusive('cannot parse action label %r' % lab)
     name, args = m.group(1), core.tlaval.parse('<<' + m.group(2) + '>>')
     if name == 'MCSubscribe':
-        return {'a': 'Subscribe', 'g': args[0], 'c': args[1], 'e': args[2], 'bad': args[3]}
+        return {'a': 'Subscribe', 'q': {'n': args[0], 'ris': args[1], 'g': args[2], 'c': args[3], 'e': args[4],
+                                        'bad': args[5], 'stop': args[6]}}
     if name == 'MCBurst':
         return {'a': 'Burst', 'g': args[0], 'cs': [args[1], args[2]], 'e': args[3]}
     if name == 'MCCancel':
@@ -224,7 +236,7 @@ def run(rep, tier, seed, replay):
     # 2. the historically defective clean-up (entry removed by consumer id): TLC's counterexamples
     #    become directed stimuli for the real code
     directed = []
-    for cfg in ('MC_GroupSub_byid.cfg',):
+    for cfg in ('MC_GroupSub_byid.cfg', 'MC_GroupSub_follower.cfg', 'MC_GroupSub_openended.cfg'):
         r2 = core.tlc_check('MC_GroupSub.tla', cfg, timeout=600, workers=1)
         rep.cov['design_checks'].append({'config': cfg + ' (defective variant, expected to fail)',
                                          'violated': r2['violated'], 'distinct_states': r2['distinct'],
@@ -235,7 +247,8 @@ def run(rep, tier, seed, replay):
             raise core.Inconclusive('no counterexample from the defective variant %s: %s' % (cfg, r2['out'][-1500:]))
         directed.append(cx)
         # and a continuation: a stale-epoch consumer arrives afterwards
-        directed.append(cx + [{'a': 'Subscribe', 'g': 'g1', 'c': 'c3', 'e': 1, 'bad': False},
+        directed.append(cx + [{'a': 'Subscribe', 'q': {'n': 'L', 'ris': False, 'g': 'g1', 'c': 'c3', 'e': 1,
+                                                         'bad': False, 'stop': 'none'}},
                               {'a': 'LoopExit', 's': 2}, {'a': 'Cancel', 's': 3}])
     # 3. every transition of a bounded instance
     cover, nstates, nedges = edge_cover('MC_GroupSub_cover.cfg' if quick else 'MC_GroupSub_cover_thorough.cfg')
